@@ -596,14 +596,21 @@ func (m *coreModel) checkFold(p *pwPath, kind string, stmtCall ssa.Value, base s
 		}
 		src := p.resolve(stripIface(p.resolve(els[0])))
 		// the same value seen through the exit interface (i.(exitIface)) is still the statement's value
+		// (also through an assertion to its concrete type: the struct boxed again is an equal value)
 		for i := 0; i < 3; i++ {
 			if e2, ok := src.(*ssa.Extract); ok && e2.Index == 0 {
 				if ta, ok := e2.Tuple.(*ssa.TypeAssert); ok {
-					if _, isIface := ta.AssertedType.Underlying().(*types.Interface); isIface {
+					_, isIface := ta.AssertedType.Underlying().(*types.Interface)
+					_, isStruct := ta.AssertedType.Underlying().(*types.Struct)
+					if isIface || isStruct {
 						src = p.resolve(stripIface(p.resolve(ta.X)))
 						continue
 					}
 				}
+			}
+			if ta, ok := src.(*ssa.TypeAssert); ok && !ta.CommaOk {
+				src = p.resolve(stripIface(p.resolve(ta.X)))
+				continue
 			}
 			break
 		}
